@@ -564,6 +564,9 @@ def tamper(batch, res):
     stop = False
     max_dgrams = 14 if not batch["all_bits"] else 40
     dcount = 0
+    wire_ids = None
+    server_packet_processed = False
+    forged_retries = 0
     while not stop and steps < 400:
         steps += 1
         if not ls.queue:
@@ -650,12 +653,42 @@ def tamper(batch, res):
                     break
         if stop:
             break
+        if sender == "client" and data and data[0] & 0x80 and len(data) > 7:
+            # what an observer of the wire knows about the client's connection IDs and version
+            dl = data[5]
+            wire_ids = {"version": int.from_bytes(data[1:5], "big"), "dcid": data[6 : 6 + dl], "scid": data[7 + dl : 7 + dl + data[6 + dl]]}
+        elif sender == "client" and data and wire_ids is not None:
+            wire_ids["dcid"] = data[1 : 1 + len(wire_ids["dcid"])]
+        if recv_name == "client" and batch["role"] == "client" and server_packet_processed and wire_ids is not None and R is not None and forged_retries < 6:
+            # a Retry packet the server never sent, built by someone who watches the wire (the Retry integrity key is
+            # public): once the client has processed a packet from the server it has to leave the client exactly as it
+            # was (RFC 9000 17.2.5.2); the same goes for a second one after a genuine Retry
+            from aioquic.quic.packet import encode_quic_retry
+
+            forged = encode_quic_retry(version=wire_ids["version"], source_cid=bytes(rng.getrandbits(8) for _ in range(8)), destination_cid=wire_ids["scid"],
+                                       original_destination_cid=wire_ids["dcid"], retry_token=b"forged-token")
+            before = digest(R)
+            try:
+                R.receive_datagram(forged, ls.simnet.SERVER_ADDR, now=ls.now)
+            except Exception:
+                res.count("obs_altered_copy_raised")
+            after = digest(R)
+            forged_retries += 1
+            res.count("forged_retries_after_server_packet")
+            if after != before:
+                changed = [DIGEST_FIELDS[i] for i in range(len(before)) if before[i] != after[i]]
+                res.violation("tamper:forged-retry-after-server-packet:%s-changed" % "+".join(changed)[:60],
+                              "a Retry packet the server never sent, delivered after the client had processed a server packet, changed the client's state: %s" % changed,
+                              case, {"client_state": R._state.name, "handshake_complete": bool(R._handshake_complete), "before": repr(before)[:600], "after": repr(after)[:600]})
+                break
         # now the genuine datagram
         before_sets = None
         if R is not None:
             before_sets = digest(R)
         ls.deliver(sender, data)
         R = ls.conn(recv_name)
+        if sender == "server" and any(v.pn is not None and not v.error for v in views or []):
+            server_packet_processed = True
         if R is not None and before_sets is not None and batch["role"] == recv_name:
             for off, ln, view in split_packets(data, views):
                 if view.pn is None:
